@@ -223,6 +223,17 @@ def check_native_case(mn, mx, total, cuts, seed, key=b'\x01\x02\x03\x04\x05\x06\
         A._replicat_adapters = saved
     if ra != out or rb != solo_b:
         return False, 'two chunk generators of one adapter instance advanced alternately differ from the same calls run one after the other'
+    # the pieces may be views of ONE reused buffer (the zero-copy idiom `n = f.readinto(scratch); yield memoryview(scratch)[:n]`):
+    # each piece is only valid until the producer is advanced again
+    def reusing():
+        scratch = bytearray(max((len(p) for p in pieces), default=0) or 1)
+        for p in pieces:
+            scratch[:len(p)] = p
+            yield memoryview(scratch)[:len(p)]
+            scratch[:len(p)] = b'\xee' * len(p)          # what the next readinto() would do to the old bytes
+    rz = [bytes(x) for x in run_wrapper(mn, mx, reusing(), native_factory, params=key)]
+    if rz != out:
+        return False, 'pieces handed over as views of a reused buffer give different chunks than the same bytes as separate objects (a piece is read after the producer was advanced)'
     if r2 != run_wrapper(mn, mx, pieces, native_factory, params=key2) or r0 != run_wrapper(mn, mx, pieces, native_factory, params=None):
         return False, 'result for another key depends on earlier calls of the same adapter instance'
     for res in (ref, out):
